@@ -2014,7 +2014,7 @@ def gen_C16(rng, tier):
     for _ in range(6):
         d = datum_state(rng, rng.randint(-9, 9))
         L.append("dv free:2 -- c:0:1 ss:0:%s ss:1:%s ra oa" % (d, d))
-        L.append("dv axle:2 free:2 -- c:0:2 c:1:3 ss:2:%s u:0 ra u:0 ra oa" % d)
+        L.append("dv axle:2 free:2 -- c:0:2 c:1:3 ss:2:%s u:0 ra oa" % d)
     # the same reads while the caller holds a mutable borrow of the terminal itself, of its partner, or of an unrelated terminal:
     # a RefCell borrow error (panic) in the first two cases — never an answer assembled from slots that were not written
     for so in (0, 1):
